@@ -298,6 +298,10 @@ class Check:
         self.cov["trusted_base"] = self.cov["trusted_base"] or [
             "Lean 4.33.0 kernel", "axioms propext/Classical.choice/Quot.sound only (audited)",
             "harness correspondence check and exporters (harness/)"]
+        # the evidence schema wants a boolean here; a harness that describes its enumeration in words keeps the words
+        if "exhaustive" in self.cov and not isinstance(self.cov["exhaustive"], bool):
+            self.cov["exhaustive_scope"] = str(self.cov["exhaustive"])
+            self.cov["exhaustive"] = False
         if self.cov["discharged"] > self.cov["obligations"]:
             self.cov["discharged"] = self.cov["obligations"]
         ev = {"property_id": self.prop, "tier": self.tier, "seed": self.seed, "level": "proof",
